@@ -3,10 +3,13 @@
    backslash; the real strconv.Quote escapes more, which the hypotheses do not care about. *)
 From LR Require Import lib.Base model.KV model.Tags proofs.KVP.
 
+Definition LN : byte := x6e.   (* the letter n *)
 Fixpoint esc (s : bytes) : bytes :=
   match s with
   | [] => []
-  | c :: tl => if byte_eqb c QUOTE || byte_eqb c BSL then BSL :: c :: esc tl else c :: esc tl
+  | c :: tl => if byte_eqb c QUOTE || byte_eqb c BSL then BSL :: c :: esc tl
+               else if byte_eqb c LF then BSL :: LN :: esc tl
+               else c :: esc tl
   end.
 Definition squote (s : bytes) : bytes := QUOTE :: esc s ++ [QUOTE].
 
@@ -19,7 +22,7 @@ Fixpoint unesc (s : bytes) : option bytes :=
       else if byte_eqb c BSL then
         match tl with
         | [] => None
-        | d :: tl' => match unesc tl' with Some r => Some (d :: r) | None => None end
+        | d :: tl' => match unesc tl' with Some r => Some ((if byte_eqb d LN then LF else d) :: r) | None => None end
         end
       else match unesc tl with Some r => Some (c :: r) | None => None end
   end.
@@ -35,10 +38,15 @@ Lemma unesc_esc s : unesc (esc s ++ [QUOTE]) = Some s.
 Proof.
   induction s as [|c tl IH]; [reflexivity|]. cbn [esc].
   destruct (byte_eqb c QUOTE) eqn:E1; cbn [orb].
-  - cbn [app unesc]. change (byte_eqb BSL QUOTE) with false. change (byte_eqb BSL BSL) with true. cbn iota. rewrite IH. reflexivity.
+  - cbn [app unesc]. change (byte_eqb BSL QUOTE) with false. change (byte_eqb BSL BSL) with true. cbn iota. rewrite IH.
+    apply byte_eqb_eq in E1. subst c. reflexivity.
   - destruct (byte_eqb c BSL) eqn:E2.
-    + cbn [app unesc]. change (byte_eqb BSL QUOTE) with false. change (byte_eqb BSL BSL) with true. cbn iota. rewrite IH. reflexivity.
-    + cbn [app unesc]. rewrite E1, E2, IH. reflexivity.
+    + cbn [app unesc]. change (byte_eqb BSL QUOTE) with false. change (byte_eqb BSL BSL) with true. cbn iota. rewrite IH.
+      apply byte_eqb_eq in E2. subst c. reflexivity.
+    + destruct (byte_eqb c LF) eqn:E3.
+      * cbn [app unesc]. change (byte_eqb BSL QUOTE) with false. change (byte_eqb BSL BSL) with true. cbn iota. rewrite IH.
+        apply byte_eqb_eq in E3. subst c. reflexivity.
+      * cbn [app unesc]. rewrite E1, E2, IH. reflexivity.
 Qed.
 
 Lemma scan_esc s rest : scan (esc s ++ rest) true = scan rest true.
@@ -48,12 +56,38 @@ Proof.
   - cbn [app scan]. change (byte_eqb BSL QUOTE) with false. change (byte_eqb BSL BSL) with true. cbn [andb]. exact IH.
   - destruct (byte_eqb c BSL) eqn:E2.
     + cbn [app scan]. change (byte_eqb BSL QUOTE) with false. change (byte_eqb BSL BSL) with true. cbn [andb]. exact IH.
-    + cbn [app scan]. rewrite E1, E2. cbn [andb negb]. rewrite andb_false_r. exact IH.
+    + destruct (byte_eqb c LF) eqn:E3.
+      * cbn [app scan]. change (byte_eqb BSL QUOTE) with false. change (byte_eqb BSL BSL) with true. cbn [andb]. exact IH.
+      * cbn [app scan]. rewrite E1, E2. cbn [andb negb]. rewrite andb_false_r. exact IH.
 Qed.
 
 Lemma esc_length s : length s <= length (esc s) <= 2 * length s.
 Proof.
-  induction s as [|c tl IH]; [cbn; lia|]. cbn [esc]. destruct (byte_eqb c QUOTE || byte_eqb c BSL); cbn [length]; lia.
+  induction s as [|c tl IH]; [cbn; lia|]. cbn [esc].
+  destruct (byte_eqb c QUOTE || byte_eqb c BSL); [cbn [length]; lia|]. destruct (byte_eqb c LF); cbn [length]; lia.
+Qed.
+
+Lemma byte_eqb_sym' a b : byte_eqb a b = byte_eqb b a.
+Proof.
+  destruct (byte_eqb a b) eqn:E1, (byte_eqb b a) eqn:E2; try reflexivity.
+  - apply byte_eqb_eq in E1. subst. rewrite byte_eqb_refl in E2. discriminate.
+  - apply byte_eqb_eq in E2. subst. rewrite byte_eqb_refl in E1. discriminate.
+Qed.
+
+Lemma esc_no_lf s : has LF (esc s) = false.
+Proof.
+  induction s as [|c tl IH]; [reflexivity|]. cbn [esc].
+  destruct (byte_eqb c QUOTE || byte_eqb c BSL) eqn:E.
+  - unfold has in *. cbn [existsb]. rewrite IH.
+    apply orb_true_iff in E as [E|E]; apply byte_eqb_eq in E; subst c; reflexivity.
+  - destruct (byte_eqb c LF) eqn:E3.
+    + unfold has in *. cbn [existsb]. rewrite IH. reflexivity.
+    + unfold has in *. cbn [existsb]. rewrite IH, (byte_eqb_sym' LF c), E3. reflexivity.
+Qed.
+
+Lemma squote_no_lf : QuoteNoLF squote.
+Proof.
+  intros v. unfold squote, has. cbn [existsb]. rewrite existsb_app. fold (has LF (esc v)). rewrite esc_no_lf. reflexivity.
 Qed.
 
 Lemma squote_spec : QuoteSpec squote sunquote.
